@@ -20,7 +20,7 @@ TERMINAL = {"O", "OO", "OP", "R", "RR", "P", "V", "VV", "B", "U", "T2O", "VP", "
 ITER = {"I", "IP", "IE", "IO", "IR", "II"}
 # async worlds: futures (by output), try-future, streams (by item). Only generated inside async macros.
 FUT_OUT = {"FP": "u32", "FO": "Option<u32>", "TF": "Result<u32, u8>", "FV": "Vec<u32>", "FVV": "(Vec<u32>, Vec<u32>)", "FU": "usize"}
-ASYNC_WORLDS = set(FUT_OUT) | {"FFP", "S", "SP", "SE", "SR", "SS", "FB"}
+ASYNC_WORLDS = set(FUT_OUT) | {"FFP", "S", "SP", "SE", "SR", "SS", "FB", "TTF", "SFO"}
 RDY = "futures::future::ready"
 
 
@@ -301,6 +301,11 @@ class G:
                 add("inspect", "??", "TF", one("r", "&Result<u32, u8>", "r", "", None), "tryfut/inspect")
                 add("dot", "..", "FP", lambda: [("unwrap_or_else(|e| e as u32)", 0)], "tryfut/dot_unwrap_or_else")
                 add("dot", ">.", "SR", lambda: [("into_stream()", 0)], "tryfut/dot_into_stream")
+                add("and_then", "=>", "TTF", one("v", "u32", "&v", RDY + "(Ok::<futures::future::Ready<Result<u32, u8>>, u8>(" + RDY + "(if v % 2 == 0 { Ok::<u32, u8>(v / 2) } else { Err(9u8) })))", "futures::future::Ready<Result<futures::future::Ready<Result<u32, u8>>, u8>>"), "tryfut/and_then_nested")
+            elif w == "TTF":
+                add("and_then", "=>", "TF", one("f", "futures::future::Ready<Result<u32, u8>>", None, "f", "futures::future::Ready<Result<u32, u8>>"), "tryfut/and_then_identity")
+            elif w == "SFO":
+                add("filter_map", "?|>", "S", one("f", "futures::future::Ready<Option<u32>>", None, "f", "futures::future::Ready<Option<u32>>"), "stream/filter_map_identity")
             elif w == "FV":
                 add("map", "|>", "FU", one("v", "Vec<u32>", "&v", "v.len()", "usize"), "fut/map")
                 add("map", "|>", "FP", one("v", "Vec<u32>", "&v", "v.iter().fold(0u32, |a, b| a.wrapping_add(*b))", "u32"), "fut/map")
@@ -314,6 +319,7 @@ class G:
                 add("map", "|>", "SP", one("v", "u32", "&v", "(v, v % 3)", "(u32, u32)"), "stream/map")
                 add("map", "|>", "SR", one("v", "u32", "&v", "if v % 3 == 0 { Err(v as u8) } else { Ok::<u32, u8>(v) }", "Result<u32, u8>"), "stream/map")
                 add("map", "|>", "SS", one("v", "u32", "&v", "futures::stream::iter(vec![v, v.wrapping_add(1)])", None), "stream/map_to_stream")
+                add("map", "|>", "SFO", one("v", "u32", "&v", RDY + "(if v > 2 { Some(v - 1) } else { None })", "futures::future::Ready<Option<u32>>"), "stream/map_to_option_future")
                 add("filter", "?>", "S", one("v", "&u32", "v", RDY + "(*v % 2 == 1)", "futures::future::Ready<bool>"), "stream/filter")
                 add("filter_map", "?|>", "S", one("v", "u32", "&v", RDY + "(if v > 2 { Some(v - 1) } else { None })", "futures::future::Ready<Option<u32>>"), "stream/filter_map")
                 add("chain", ">@>", "S", lambda: [self.val("futures::stream::iter(vec![10u32, 11])")], "stream/chain")
@@ -375,7 +381,30 @@ class G:
         ("I", "find"): ("?@", "PR", {"B": "O"}),
         ("I", "find_map"): ("?|>@", "P", {"O": "O"}),
         ("IP", "map"): ("|>", "PP", {"P": "I"}),
+        # wrappers whose inner chain may be empty although the operator is not `map`: `.and_then(|v| v)`, `.filter_map(|v| v)`
+        ("OO", "and_then"): ("=>", "O", {"O": "O"}),
+        ("RR", "and_then"): ("=>", "R", {"R": "R"}),
+        ("IO", "filter_map"): ("?|>", "O", {"O": "I"}),
     }
+
+    AWRAPS = {
+        ("FP", "map"): ("|>", "P", {"P": "FP", "O": "FO"}), ("FP", "inspect"): ("??", "PR", {"N": "FP"}),
+        ("TF", "and_then"): ("=>", "P", {"TF": "TF"}), ("TF", "or_else"): ("<=", "E", {"TF": "TF"}), ("TF", "map_err"): ("!>", "E", {"E": "TF"}),
+        ("TF", "inspect"): ("??", "RREF", {"N": "TF"}),
+        ("S", "map"): ("|>", "P", {"P": "S"}), ("S", "filter"): ("?>", "PR", {"FB": "S"}), ("S", "filter_map"): ("?|>", "P", {"FO2": "S"}),
+        ("S", "inspect"): ("??", "PR", {"N": "S"}),
+        # possibly empty `=> >>>` / `?|> >>>` on a try-future of try-futures / a stream of option-futures:
+        # TryFutureExt::and_then(|v| v) and StreamExt::filter_map(|v| v) are not `flatten`
+        ("TTF", "and_then"): ("=>", "TF", {"TF": "TF"}),
+        ("SFO", "filter_map"): ("?|>", "FO2", {"FO2": "S"}),
+    }
+
+    def empty_wrapper(self, w, op, explicit):
+        """The wrapper (w, op) with an empty inner chain (`op >>> <<<`, or left open), if that is typeable."""
+        ent = self.WRAPS.get((w, op)) or (self.AWRAPS.get((w, op)) if self.flavour == "async" else None)
+        if ent is None or ent[1] not in ent[2]:
+            return None
+        return Member(op, ent[0], [], ent[2][ent[1]], inner=[], explicit_close=explicit, tag="w:empty:" + op)
 
     def wrapper(self, w, depth, last):
         """Returns a wrapper Member applicable in world w (or None)."""
@@ -389,14 +418,7 @@ class G:
         if w == "I" and last:
             cands.append((("I", "partition"), ("?&!>", "PR", {"B": "VV"})))
         if self.flavour == "async":
-            extra = {
-                "FP": [(("FP", "map"), ("|>", "P", {"P": "FP", "O": "FO"})), (("FP", "inspect"), ("??", "PR", {"N": "FP"}))],
-                "TF": [(("TF", "and_then"), ("=>", "P", {"TF": "TF"})), (("TF", "or_else"), ("<=", "E", {"TF": "TF"})), (("TF", "map_err"), ("!>", "E", {"E": "TF"})),
-                       (("TF", "inspect"), ("??", "RREF", {"N": "TF"}))],
-                "S": [(("S", "map"), ("|>", "P", {"P": "S"})), (("S", "filter"), ("?>", "PR", {"FB": "S"})), (("S", "filter_map"), ("?|>", "P", {"FO2": "S"})),
-                      (("S", "inspect"), ("??", "PR", {"N": "S"}))],
-            }
-            cands += extra.get(w, [])
+            cands += [(k, v) for k, v in self.AWRAPS.items() if k[0] == w]
         if not cands:
             return None
         (_, op), (sp, start, ends) = r.choice(cands)
@@ -902,7 +924,7 @@ def gen_forced(pid, rng, kind, world, pick, nth, second=None, force_capture=Fals
     return None
 
 
-WORLDS = ["O", "OO", "OP", "R", "RR", "I", "IP", "IE", "IO", "IR", "II", "P", "V", "B", "U"]
+WORLDS = ["O", "OO", "OP", "R", "RR", "I", "IP", "IE", "IO", "IR", "II", "P", "V", "B", "U", "OV", "RV"]
 
 
 def build_corpus(tier, seed):
@@ -964,7 +986,7 @@ def build_corpus(tier, seed):
     def next_async_kind():
         akc[0] += 1
         return ASYNC_KINDS[akc[0] % len(ASYNC_KINDS)]
-    for w in ["FP", "FFP", "FO", "TF", "FV", "FVV", "FU", "S", "SP", "SE", "SS", "SR", "FVR"]:
+    for w in ["FP", "FFP", "FO", "TF", "FV", "FVV", "FU", "S", "SP", "SE", "SS", "SR", "FVR", "TTF", "SFO"]:
         for last in (False, True):
             ts = probe_a.transitions(w, last)
             base_tags = [t[4] for t in probe_a.transitions(w, False)]
@@ -978,7 +1000,7 @@ def build_corpus(tier, seed):
                 for attempt in range(6):
                     if keep(gen_forced(0, rng, next_async_kind(), w, picka, ti)):
                         break
-    for (w, op) in [("FP", "map"), ("FP", "inspect"), ("TF", "and_then"), ("TF", "or_else"), ("TF", "map_err"), ("TF", "inspect"), ("S", "map"), ("S", "filter"), ("S", "filter_map"), ("S", "inspect")]:
+    for (w, op) in [("FP", "map"), ("FP", "inspect"), ("TF", "and_then"), ("TF", "or_else"), ("TF", "map_err"), ("TF", "inspect"), ("S", "map"), ("S", "filter"), ("S", "filter_map"), ("S", "inspect"), ("TTF", "and_then"), ("SFO", "filter_map")]:
         for explicit in (True, False):
             def pickaw(g, world, is_last, nth, op=op, explicit=explicit):
                 for _ in range(40):
@@ -1004,6 +1026,17 @@ def build_corpus(tier, seed):
                     return None
                 for attempt in range(4):
                     if keep(gen_forced(0, rng, next_kind(), w, pickw, 0)):
+                        break
+    # (b'') every wrapper that can be empty (`op >>> <<<`, `op >>>` at the end, `op >>> ~next`), sync and async
+    for flav, table in (("sync", G.WRAPS), ("async", G.AWRAPS)):
+        for (w, op), ent in table.items():
+            if ent[1] not in ent[2]:
+                continue
+            for explicit in (True, False):
+                def picke(g, world, is_last, nth, op=op, explicit=explicit):
+                    return g.empty_wrapper(world, op, explicit)
+                for attempt in range(6):
+                    if keep(gen_forced(0, rng, next_kind() if flav == "sync" else next_async_kind(), w, picke, 0)):
                         break
     # (b') a wrapper left open at the end of a step (implicit close, possibly several levels at once), the next step opened
     #      by a deferred wrapper or a deferred plain operator (step boundaries and wrapper nesting interact here)
